@@ -673,7 +673,7 @@ fn path_is(p: &syn::Path, name: &str) -> bool {
 
 /// What the `attrs` member must hold for this source (token text, in source order).
 fn expected_forwarded(s: &StructDecl, src: &str) -> Option<Vec<Val>> {
-    let di: syn::DeriveInput = syn::parse_str(src).ok()?;
+    let di: syn::DeriveInput = crate::run::parse_input(src).ok()?;
     let attrs = element_attrs(s.tr8, &di);
     let consumed = |a: &syn::Attribute| s.attrs.iter().any(|n| path_is(a.path(), n));
     let v: Vec<Val> = attrs
@@ -683,7 +683,7 @@ fn expected_forwarded(s: &StructDecl, src: &str) -> Option<Vec<Val>> {
             Fwd::All => !consumed(a),
             Fwd::Only(list) => !consumed(a) && list.iter().any(|n| path_is(a.path(), n)),
         })
-        .map(|a| Val::Tok(quote::ToTokens::to_token_stream(a).to_string()))
+        .map(|a| Val::Tok(crate::run::show(a)))
         .collect();
     Some(v)
 }
